@@ -15,9 +15,12 @@ def M(optimize=0, stubs=None, key=None):
     k = key or ('std', optimize)
     if k not in _CTX:
         ctx = loader.Context(optimize=optimize, stubs=stubs)
-        ctx.load('cardutil.iso8583', 'cardutil.mciipm', 'cardutil.card', 'cardutil.config', 'cardutil.BitArray')
+        ctx.load('cardutil.iso8583', 'cardutil.mciipm', 'cardutil.card', 'cardutil.config', 'cardutil.BitArray', 'cardutil.cli',
+                 'cardutil.cli.mci_ipm_param_to_csv', 'cardutil.cli.mci_ipm_to_csv', 'cardutil.cli.mci_csv_to_ipm', 'cardutil.cli.mci_ipm_encode',
+                 'cardutil.cli.mci_ipm_param_encode', 'cardutil.cli.mideu', 'cardutil.cli.paramconv')
         import types
         ns = types.SimpleNamespace(ctx=ctx, **{n.split('.')[-1]: m for n, m in ctx.modules.items()})
+        ns.stubs = stubs or {}
         ns.cardutil = sys.modules['cardutil']
         _CTX[k] = ns
     return _CTX[k]
